@@ -136,7 +136,6 @@ static int parse_device(AsmContext *asm_context)
 
 static int parse_set(AsmContext *asm_context)
 {
-  char token[TOKENLEN];
   char name[TOKENLEN];
   //char value[TOKENLEN];
   int num;
